@@ -84,7 +84,50 @@ func (d *ScheduleDFS) run(prefix []int) (*schedRun, error) {
 	return r, nil
 }
 
+// replay executes one schedule given by its action labels.
+func (d *ScheduleDFS) replay(hist []string) {
+	w, err := d.New()
+	if err != nil {
+		d.Stats.HarnessErrs = append(d.Stats.HarnessErrs, err.Error())
+		return
+	}
+	defer w.Close()
+	d.Stats.Executions++
+	for i, a := range hist {
+		found := false
+		for _, e := range w.Enabled() {
+			if e == a {
+				found = true
+			}
+		}
+		if !found {
+			d.Stats.HarnessErrs = append(d.Stats.HarnessErrs, fmt.Sprintf("replay step %d: %q is not enabled (enabled: %v)", i, a, w.Enabled()))
+			return
+		}
+		if err := w.Do(a); err != nil {
+			d.Stats.HarnessErrs = append(d.Stats.HarnessErrs, err.Error())
+			return
+		}
+		d.Stats.Transitions++
+		fmt.Printf("  step %d: %s\n", i+1, a)
+		for _, v := range w.Check(hist[:i+1]) {
+			v.Scenario, v.History = d.Scenario, append([]string{}, hist[:i+1]...)
+			d.Stats.Violations = append(d.Stats.Violations, v)
+		}
+	}
+	if d.Terminal != nil {
+		for _, v := range d.Terminal(w, hist) {
+			v.Scenario, v.History = d.Scenario, append([]string{}, hist...)
+			d.Stats.Violations = append(d.Stats.Violations, v)
+		}
+	}
+}
+
 func (d *ScheduleDFS) Run() {
+	if ReplayOnly != nil {
+		d.replay(ReplayOnly)
+		return
+	}
 	d.explore(nil, 0)
 	if d.expired {
 		d.Stats.CapsHit = append(d.Stats.CapsHit, "time budget reached in "+d.Scenario)
